@@ -35,7 +35,11 @@ func BitSetFilterFromBytes(s []byte, capInBytes int) BitSetFilter {
 }
 
 func (f *BitSetFilter) indexAndOffset(idx int64) (int, int) {
-	return (int(idx) / byteBits) % cap(f.s), int(idx) % byteBits
+	// idx may come from untrusted data (e.g. network IDs in a decoded BTP
+	// digest): use unsigned arithmetic so that a negative value cannot
+	// yield a negative index or shift amount.
+	u := uint64(idx)
+	return int((u / byteBits) % uint64(cap(f.s))), int(u % byteBits)
 }
 
 func (f *BitSetFilter) Set(idx int64) {
